@@ -148,7 +148,10 @@ def build_proofs(pid, mods, log):
     sorry = re.findall(r"warning: ([\w/\.]+\.lean):(\d+):\d+: declaration uses `sorry`", out)
     for f, line in sorry:
         failed.add('%s:%s uses sorry' % (f, line))
-    res['forbidden'] = forbidden_tokens(mods)
+    allmods = []
+    for m in mods:
+        lean_imports(m, allmods)
+    res['forbidden'] = forbidden_tokens([m for m in allmods if not m.startswith('Generated')])
     for h in res['forbidden']:
         failed.add('forbidden token ' + h)
     # axiom audit (only meaningful if the modules built)
